@@ -14,8 +14,9 @@ MANIFEST = {
             "never_wrong_body_partial, at_most_once_per_transfer_partial) and the CLIENT's Block2 automaton (coap_handle_response_get_block, "
             "single-body and per-block mode, ETag restart, give-up -> 4.08: never_wrong_body_block2_partial - a delivered body is exactly the "
             "server's, every delivered block is the exact slice at its offset; at_most_once_block2_partial - delivery releases the lg_crcv, a "
-            "delivered block was not recorded before and is recorded afterwards, completion means every block was recorded: the offsets tile the "
-            "body, each once).  SENDERS (lg_xmit), for every state and every request / response: server_block2_genuine (every Block2 response is "
+            "delivered block was not recorded before and is recorded afterwards, completion means every block was recorded; "
+            "per_block_tiles_once_partial - along every run in per-block mode no block is handed over twice in an lg_crcv lifetime and at "
+            "completion all of them have been: the offsets tile the body, each once).  SENDERS (lg_xmit), for every state and every request / response: server_block2_genuine (every Block2 response is "
             "the slice for the requested NUM/SZX with the right More bit and fits the PDU, a changed size is 4.00), first_block_genuine (first "
             "Block1 message = slice 0 at the lg_xmit size after both size reductions), client_block1_slices + client_block1_genuine_partial "
             "(every follow-up Block1 message is the slice for its NUM/SZX, along any response sequence incl. early size renegotiation; More bit "
@@ -45,7 +46,7 @@ LEAN_MODULES = ["CoapVerif.Props.C09"]
 NAMESPACE = "Coap.C09"
 REQUIRED_THEOREMS = ["block_opt_roundtrip", "blocks_tile_body", "rblock_represents", "reassembly_exact", "block_fits_mtu",
                      "never_wrong_body_partial", "at_most_once_per_transfer_partial",
-                     "never_wrong_body_block2_partial", "at_most_once_block2_partial", "server_block2_genuine", "first_block_genuine",
+                     "never_wrong_body_block2_partial", "at_most_once_block2_partial", "per_block_tiles_once_partial", "server_block2_genuine", "first_block_genuine",
                      "client_block1_slices", "client_block1_genuine_partial", "adl_release_once", "release_exactly_once",
                      "request_tag_tells_transfers_apart", "never_wrong_body_block2_composed_partial",
                      "never_wrong_body_block1_composed_partial"]
